@@ -57,6 +57,40 @@ func verif_harness_C09_json_truncated() {
 	verif_assert(len(handed) == len(want), "C09.json.torn-tail-never-decoded")
 }
 
+// C09 (a2) — the same with records far larger than the reader's buffer: two
+// lines of 70 000 and 5 bytes followed by a torn tail, delivered in reads of at
+// most 32 KiB. Both complete lines reach the record decoder whole; the tail
+// does not.
+//
+//verif:harness unwind=64 replay=none
+func verif_harness_C09_json_large_line() {
+	if !verif_is_symbolic_run() {
+		return
+	}
+	const N = 70000
+	stream := make([]byte, 0, N+16)
+	for i := 0; i < N-1; i++ {
+		stream = append(stream, byte('a'+i%26))
+	}
+	stream = append(stream, '\n')
+	stream = append(stream, "bcde\n"...)
+	tail := verif_choose("torn_tail_bytes", 3)
+	stream = append(stream, "xy"[:tail]...)
+	var handed [][]byte
+	verif_stub("(*github.com/tsenart/vegeta/v12/lib.jsonResult).UnmarshalEasyJSON", func(r *jsonResult, l *jlexer.Lexer) {
+		handed = append(handed, append([]byte(nil), l.Data...))
+	})
+	dec := NewJSONDecoder(&verifBigSrc{data: stream})
+	var r Result
+	verif_assert(dec.Decode(&r) == nil && dec.Decode(&r) == nil, "C09.json.complete-large-record-decodes")
+	verif_assert(dec.Decode(&r) != nil, "C09.json.torn-tail-ends-in-error")
+	verif_assert(len(handed) == 2, "C09.json.only-complete-lines-are-decoded")
+	if len(handed) == 2 {
+		verif_assert(len(handed[0]) == N && verifSamePrefix(handed[0], stream) && bytes.Equal(handed[1], []byte("bcde\n")),
+			"C09.json.each-record-whole-and-in-order")
+	}
+}
+
 // verifRecWriter records every Write call.
 type verifRecWriter struct {
 	writes [][]byte
@@ -116,5 +150,80 @@ func verif_harness_C09_encoders_flush_per_record() {
 		}
 		var r Result
 		verif_assert(dec.Decode(&r) == io.EOF, "C09.enc.nothing-else-in-the-prefix")
+	}
+}
+
+// verifFailingWriter accepts limit bytes in total, then fails (a short write
+// with an error, as a full disk gives).
+type verifFailingWriter struct {
+	data  []byte
+	limit int
+}
+
+var errVerifDisk = io.ErrShortWrite
+
+func (w *verifFailingWriter) Write(p []byte) (int, error) {
+	room := w.limit - len(w.data)
+	if room >= len(p) {
+		w.data = append(w.data, p...)
+		return len(p), nil
+	}
+	if room < 0 {
+		room = 0
+	}
+	w.data = append(w.data, p[:room]...)
+	return room, errVerifDisk
+}
+
+// C09 (b2) — the writer fails after an arbitrary number of bytes (a choice
+// among: nothing, one byte, inside the first record, exactly the end of the
+// first record, inside the second): an Encode call that reports success has
+// handed its whole record to the writer — the output then holds exactly as many
+// whole records as calls succeeded — and a call whose record did not fit
+// reports an error.
+//
+//verif:harness unwind=64
+func verif_harness_C09_encoder_write_fault() {
+	results := []Result{
+		{Attack: "a", Seq: 0, Code: 200, Timestamp: time.Unix(0, 1700000000123456789), Latency: 1500, BytesOut: 3, BytesIn: 5, Body: []byte("hello"), Method: "GET", URL: "http://x/"},
+		{Attack: "a", Seq: 1, Code: 0, Timestamp: time.Unix(0, 1700000000223456789), Latency: 7, Error: "refused", Method: "POST", URL: "http://y/"},
+	}
+	csvFormat := verif_choose("format", 2) == 0
+	// size of each record on an unlimited writer
+	sizes := make([]int, len(results))
+	{
+		w := &verifRecWriter{}
+		var enc Encoder
+		if csvFormat {
+			enc = NewCSVEncoder(w)
+		} else {
+			enc = NewJSONEncoder(w)
+		}
+		for k := range results {
+			before := len(w.all())
+			enc.Encode(&results[k])
+			sizes[k] = len(w.all()) - before
+		}
+	}
+	limit := []int{0, 1, sizes[0] / 2, sizes[0] - 1, sizes[0], sizes[0] + 1, sizes[0] + sizes[1] - 1}[verif_choose("writer_fails_after", 7)]
+	w := &verifFailingWriter{limit: limit}
+	var enc Encoder
+	if csvFormat {
+		enc = NewCSVEncoder(w)
+	} else {
+		enc = NewJSONEncoder(w)
+	}
+	written := 0
+	for k := range results {
+		err := enc.Encode(&results[k])
+		fits := written+sizes[k] <= limit
+		if err == nil {
+			verif_assert(fits, "C09.enc.success-means-the-whole-record-was-written")
+			written += sizes[k]
+			verif_assert(len(w.data) == written, "C09.enc.output-holds-exactly-the-successful-records")
+		} else {
+			verif_assert(!fits, "C09.enc.no-error-when-the-record-fits")
+			break
+		}
 	}
 }
